@@ -1,5 +1,5 @@
 SPECIFICATION Spec
 CONSTANTS
-  EPs = {"execv2", "execv1", "execmutate", "graffiti", "builderbid", "proposalbest", "proposer", "attester", "aggregator", "syncmessenger", "syncaggregator", "mergeduties", "cacheevents", "submitclassify"}
-INVARIANTS TypeOK KeepsRunning EndsProperly Total
+  EPs = {"execv2", "execv1", "execmutate", "execdoc", "execservice", "graffiti", "builderbid", "proposalbest", "proposer", "attester", "aggregator", "syncmessenger", "syncaggregator", "mergeduties", "cacheevents", "submitclassify"}
+INVARIANTS TypeOK KeepsRunning EndsProperly UsedOnlyIfDecoded Total
 CHECK_DEADLOCK FALSE
